@@ -44,15 +44,15 @@ type Rule struct {
 }
 
 type Spec struct {
-	Name   string
-	Toks   []Tok
-	Prec   []PrecLine
-	NTs    []string          // nonterminals in order of first definition
-	NTTag  map[string]string // union field per nonterminal ("" = no value)
-	Start  string
-	Rules  []Rule
-	Tags   []string // free-form classification: "lalr1", "conflict-sr", "conflict-rr", "lr1only", "expr", ...
-	NoStartDecl bool // omit %start (grammar then must name its start symbol "start")
+	Name        string
+	Toks        []Tok
+	Prec        []PrecLine
+	NTs         []string          // nonterminals in order of first definition
+	NTTag       map[string]string // union field per nonterminal ("" = no value)
+	Start       string
+	Rules       []Rule
+	Tags        []string // free-form classification: "lalr1", "conflict-sr", "conflict-rr", "lr1only", "expr", ...
+	NoStartDecl bool     // omit %start (grammar then must name its start symbol "start")
 }
 
 func (s *Spec) HasTag(t string) bool {
@@ -407,6 +407,15 @@ func Fixed() []*Spec {
 		}
 		add(s)
 	}
+	// a precedence line that declares a literal and then a named token
+	{
+		s := &Spec{Name: "prec_mixed", Tags: []string{"expr-like", "conflict-resolved"},
+			Toks:  []Tok{named("NUM", 303), {Char: '<', Decl: "prec"}, {Name: "LE", Decl: "prec"}, {Char: '+', Decl: "prec"}, {Name: "PLUS2", Decl: "prec"}},
+			Prec:  []PrecLine{{"nonassoc", []string{"'<'", "LE"}}, {"left", []string{"'+'", "PLUS2"}}},
+			Rules: rules("E: E '<' E | E LE E | E '+' E | E PLUS2 E | NUM"),
+			NTTag: allVal("E")}
+		add(s)
+	}
 	// unambiguous E/T/F
 	add(&Spec{Name: "etf", Tags: []string{"lalr1"},
 		Toks:  []Tok{named("NUM", 301), lit('+'), lit('*'), lit('('), lit(')')},
@@ -483,6 +492,11 @@ func Fixed() []*Spec {
 		Toks:  []Tok{named("NUM", 302), lit('+'), lit('*'), lit('('), lit(')')},
 		Rules: rules("E: T | E '+' T", "T: F | T '*' F", "F: NUM | '(' E ')'"),
 		NTTag: allVal("E", "T", "F")})
+	// two reductions looking back to one transition whose follow set has three elements, each
+	// with a further successor of its own (result sets must not share storage)
+	add(&Spec{Name: "shared_lookback", Tags: []string{"lalr1"},
+		Toks:  []Tok{lit('x'), lit('y'), lit('z'), lit('a'), lit('b'), lit('p'), lit('q'), lit('r'), lit('s'), lit('t'), lit('u')},
+		Rules: rules("S: 'x' A 'p' | 'x' A 'q' | 'x' A 'r' | 'y' A 's' | 'y' 'b' 'u' | 'z' A 't' | 'z' 'a' 'u'", "A: 'a' | 'b'")})
 	// default-resolved conflicts
 	add(&Spec{Name: "dangling_else", Tags: []string{"conflict-sr"},
 		Toks:  []Tok{lit('i'), lit('e'), litV('x')},
